@@ -361,7 +361,8 @@ def coef(index, rep, db):
               "billions fed -> percent fed does not compose with 1/KCALS_MONTHLY to 100/BILLION_KCALS_NEEDED (the factor the LP uses)",
               loc="src/food_system/unit_conversions.py")
     sp = index.func(PARAMS, "Parameters.set_nutrition_per_month")
-    asg = {norm_src(s.targets[0]): norm_src(s.value) for s in walk_no_nested(sp) if isinstance(s, ast.Assign)}
+    inl_sp = Inliner(sp)
+    asg = {norm_src(t_): inl_sp.src(v_) for t_, v_ in inl_sp.stores}
     rep.check(asg.get("constants_out['BILLION_KCALS_NEEDED']") == "Food.conversions.billion_kcals_needed" and
               asg.get("constants_out['KCALS_MONTHLY']") == "Food.conversions.kcals_monthly", rule, "optimiser-constants = conversion settings",
               "the optimiser's BILLION_KCALS_NEEDED / KCALS_MONTHLY are not the conversion object's values", loc=loc(PARAMS, sp))
